@@ -504,3 +504,118 @@ def idx_1(ctx, rep, modules):
                        'the list %s can be empty (nothing passes the filter): the constant index raises IndexError, which nothing '
                        'on the way to the caller of the listing handles' % norm(src), witness=norm(n))
     rep.ob('IDX-1', 'parso', '<%d functions>' % n_funcs, 'no constant index into a freshly filtered list', True)
+
+
+# ---------------------------------------------------------------------------------------------------------------
+# LOOP-1  a value computed for one element of a loop is not used for the next element
+def _loop1_hits(fn_node, cfg):
+    """[(variable, defining statement, [using CFG nodes])] - see loop_1."""
+    from ..model import walk_own as _wo
+
+    def stores(a):
+        out = set()
+        if isinstance(a, ast.Assign):
+            for t in a.targets:
+                out |= {x.id for x in ast.walk(t) if isinstance(x, ast.Name)}
+        elif isinstance(a, (ast.AugAssign, ast.AnnAssign)):
+            out |= {x.id for x in ast.walk(a.target) if isinstance(x, ast.Name)}
+        elif isinstance(a, (ast.Name, ast.Tuple, ast.List)):
+            out |= {x.id for x in ast.walk(a) if isinstance(x, ast.Name) and isinstance(x.ctx, ast.Store)}
+        return out
+
+    def loads(a):
+        if a is None:
+            return set()
+        src = a.value if isinstance(a, (ast.Assign, ast.AnnAssign, ast.AugAssign)) and a.value is not None else a
+        s = {x.id for x in ast.walk(src) if isinstance(x, ast.Name) and isinstance(x.ctx, ast.Load)}
+        if isinstance(a, ast.AugAssign):
+            s |= {x.id for x in ast.walk(a.target) if isinstance(x, ast.Name)}
+        return s
+    hits = []
+    for st in [n for n in _wo(fn_node) if isinstance(n, ast.For)]:
+        n1 = [n for n in cfg.nodes if n.kind == 'next' and n.stmt is st]
+        if not n1:
+            continue
+        n1 = n1[0]
+        inside = {id(x) for b in st.body for x in ast.walk(b)}
+
+        def in_loop(n):
+            return (n.ast is not None and id(n.ast) in inside) or (n.stmt is not None and id(n.stmt) in inside)
+        body_nodes = [n for n in cfg.nodes if in_loop(n)]
+        target = {x.id for x in ast.walk(st.target) if isinstance(x, ast.Name)}
+        derived = set(target)
+        for _ in range(4):
+            for n in body_nodes:
+                if isinstance(n.ast, ast.Assign) and loads(n.ast) & derived:
+                    derived |= stores(n.ast)
+
+        def bfs(start, is_goal, stop):
+            seen, todo, found = {start}, [start], []
+            while todo:
+                x = todo.pop()
+                for y, lab in x.succ:
+                    if lab == 'exc' or y in seen:
+                        continue
+                    seen.add(y)
+                    if is_goal(y):
+                        found.append(y)
+                    if not stop(y):
+                        todo.append(y)
+            return found
+        for d in body_nodes:
+            if not isinstance(d.ast, ast.Assign):
+                continue
+            for v in sorted(stores(d.ast)):
+                if v in target or not (loads(d.ast) & derived) or v in loads(d.ast):
+                    continue
+                inits = [a for a in _wo(fn_node) if isinstance(a, ast.Assign) and id(a) not in inside
+                         and any(isinstance(t, ast.Name) and t.id == v for t in a.targets)]
+                if not inits or not all(isinstance(a.value, ast.Constant) for a in inits):
+                    continue
+                kills = lambda y, v=v: v in stores(y.ast)
+                head_of_loop = lambda y: y.kind in ('next', 'next0') and y.stmt is st
+                if not bfs(d, lambda y: y is n1, lambda y: kills(y) or head_of_loop(y)):
+                    continue            # re-assigned before the iteration ends
+                uses = bfs(n1, lambda y: in_loop(y) and y.kind != 'next' and v in loads(y.ast), lambda y: kills(y) or head_of_loop(y))
+                uses = [u for u in uses if not (u.kind == 'test' and any(x is d.ast for x in ast.walk(u.stmt)))]
+                same = bfs(d, lambda y: y in uses, lambda y: kills(y) or head_of_loop(y))
+                uses = [u for u in uses if u in same]
+                if uses:
+                    hits.append((v, d.ast, uses))
+    return hits
+
+
+_LOOP1_EXAMPLE = '''
+def names(items):
+    alias = None
+    for item in items:
+        if item.type == 'as_name':
+            item, _, alias = item.children
+        yield item, alias
+'''
+
+
+def loop_1(ctx, rep, rels):
+    rep.rule('LOOP-1', 'a local that is given a value computed from the current element in one arm of a branch inside a '
+                       '`for`, has a constant default from before the loop, and is used behind the branch, is given a value on '
+                       'the other arm too: otherwise the element that does not take the arm is processed with the value '
+                       'of an earlier element (the use is reached by the same assignment within and across iterations)')
+    from ..cfg import CFG
+    ex = ast.parse(_LOOP1_EXAMPLE).body[0]
+    if not _loop1_hits(ex, CFG(ex)):
+        raise AnalysisError('LOOP-1: the matcher does not recognise its built-in example')
+    n = 0
+    for rel in rels:
+        mod = ctx.prog.mod(rel)
+        for f in mod.funcs.values():
+            if not any(isinstance(x, ast.For) for x in walk_own(f.node)):
+                continue
+            n += 1
+            hits = _loop1_hits(f.node, ctx.cfg(f))
+            if not hits:
+                rep.ob('LOOP-1', rel, f.qual, 'loops of %s' % f.name, True)
+            for v, d, uses in hits:
+                rep.ob('LOOP-1', rel, f.qual, '%s carried into the next iteration: %s' % (v, norm(d)), False,
+                       'on the way round the loop that does not execute `%s`, `%s` still holds the value computed for an '
+                       'earlier element when `%s` uses it' % (norm(d), v, norm(uses[0].ast)[:80]))
+    rep.stat('loop1_functions_with_loops', n)
